@@ -676,7 +676,7 @@ Proof.
     + rewrite emerge_map_proto. reflexivity.
   - leaf_case Hok Hev.
   - leaf_case Hok Hev.
-  - cbn [rt_ok] in Hok. contradiction.
+  - leaf_case Hok Hev.
 Qed.
 
 (** at the Unmarshal level, for struct types *)
